@@ -298,7 +298,6 @@ Definition both_run (h : list op) : st * rst :=
   fold_left (fun sr o => (t_step o (fst sr), ref_step_fun o (fst sr) (snd sr))) h (st0, rst0).
 
 (* no SHIFT_COORDS anywhere in what the user supplies *)
-Definition noshift (c : circ) : bool := forallb (fun i => negb (is_shift i)) (flatten0 c).
 Definition noshift_op (o : op) : bool :=
   match o with
   | OText p | OAppendText _ p | OStimNew p | OStimIAdd _ p => noshift p
